@@ -1,0 +1,81 @@
+//go:build verif
+// +build verif
+
+package resolver
+
+import (
+	"github.com/evanw/esbuild/internal/js_parser"
+	"github.com/evanw/esbuild/internal/logger"
+)
+
+// Thin wrappers (no logic) used by the verification harness in /verif.
+// They parse the JSON text of an "exports"/"imports" value exactly like
+// parsePackageJSON does and call the unexported ESM resolution functions.
+
+func verifParseMap(jsonText string, propertyKey string) (*pjMap, bool) {
+	log := logger.NewDeferLog(logger.DeferLogNoVerboseOrDebug, nil)
+	source := logger.Source{Contents: jsonText}
+	expr, ok := js_parser.ParseJSON(log, source, js_parser.JSONOptions{})
+	if !ok {
+		return nil, false
+	}
+	return parseImportsExportsMap(source, log, expr, propertyKey, logger.Loc{}), true
+}
+
+func verifConditions(conditions []string) map[string]bool {
+	m := make(map[string]bool, len(conditions))
+	for _, c := range conditions {
+		m[c] = true
+	}
+	return m
+}
+
+// VerifExportsResolve returns (resolved, status) of esmPackageExportsResolve("/", ...)
+// and (resolved, status) after esmHandlePostConditions. hasMap is false when
+// parseImportsExportsMap returned nil (null root); ok is false on a JSON syntax error.
+func VerifExportsResolve(jsonText string, subpath string, conditions []string) (resolved string, status uint8, postResolved string, postStatus uint8, hasMap bool, ok bool) {
+	m, ok := verifParseMap(jsonText, "exports")
+	if !ok || m == nil {
+		return "", 0, "", 0, false, ok
+	}
+	r := resolverQuery{}
+	a, b, d := r.esmPackageExportsResolve("/", subpath, m.root, verifConditions(conditions))
+	c, e, _ := r.esmHandlePostConditions(a, b, d)
+	return a, uint8(b), c, uint8(e), true, true
+}
+
+// VerifImportsResolve: the same for esmPackageImportsResolve.
+func VerifImportsResolve(jsonText string, specifier string, conditions []string) (resolved string, status uint8, postResolved string, postStatus uint8, hasMap bool, ok bool) {
+	m, ok := verifParseMap(jsonText, "imports")
+	if !ok || m == nil {
+		return "", 0, "", 0, false, ok
+	}
+	r := resolverQuery{}
+	a, b, d := r.esmPackageImportsResolve(specifier, m.root, verifConditions(conditions))
+	c, e, _ := r.esmHandlePostConditions(a, b, d)
+	return a, uint8(b), c, uint8(e), true, true
+}
+
+// VerifExpansionKeys returns the sorted expansion keys of the root object.
+func VerifExpansionKeys(jsonText string) (keys []string, ok bool) {
+	m, ok := verifParseMap(jsonText, "exports")
+	if !ok || m == nil {
+		return nil, false
+	}
+	for _, e := range m.root.expansionKeys {
+		keys = append(keys, e.key)
+	}
+	return keys, true
+}
+
+func VerifHandlePostConditions(resolved string, status uint8) (string, uint8) {
+	r := resolverQuery{}
+	a, b, _ := r.esmHandlePostConditions(resolved, pjStatus(status), pjDebug{})
+	return a, uint8(b)
+}
+
+func VerifParsePackageName(packageSpecifier string) (string, string, bool) {
+	return esmParsePackageName(packageSpecifier)
+}
+
+func VerifFindInvalidSegment(path string) string { return findInvalidSegment(path) }
